@@ -248,6 +248,11 @@ func runC04(c *Ctx) {
 			return !isNilConst(Fwd(r.Results[1])) && !Glob("call:"+gCreate+"(*", p.Desc(r.Results[1]))
 		}, CutSpec{}, 1)
 	}
+
+	// ---------- R04.10 finalizer sets are copy-on-write (same obligations as C19 R19.3 on resource.Finalizers): a
+	// mutator applied to a private copy must not write through to the object another caller holds
+	c.Import(runC19, "R19.3", "pkg/resource.Finalizers)", "R04.10", "E3", "Finalizers.Add/Remove write only to storage created in the same call: an attempt that is later rejected leaves no trace in shared metadata", 2)
+
 }
 
 // typedWrappers (R04.8): the generic helpers in pkg/safe make exactly one call to the untyped
